@@ -76,9 +76,24 @@ func parseDoc(v interface{}) *osmDoc {
 func (d *osmDoc) xml() []byte {
 	var b bytes.Buffer
 	b.WriteString("<?xml version=\"1.0\" encoding=\"UTF-8\"?>\n<osm version=\"0.6\" generator=\"verif\">\n")
+	// "selected by tag" is spelled in several ways against the two-key filter of keepFn("tags") (k = v or v2, or any name): the
+	// first key with a listed value; the first key with another value followed by the second key; an unrelated tag followed by
+	// the second listed value; the second key alone.  Unselected objects carry an unrelated tag or the first key with a value
+	// that is not listed.
 	tag := func(o osmObj) string {
 		if d.tag[o.key()] {
-			return "<tag k=\"k\" v=\"v\"/>"
+			switch o.id % 4 {
+			case 0:
+				return "<tag k=\"k\" v=\"v\"/>"
+			case 1:
+				return "<tag k=\"k\" v=\"zz\"/><tag k=\"name\" v=\"a\"/>"
+			case 2:
+				return "<tag k=\"other\" v=\"x\"/><tag k=\"k\" v=\"v2\"/>"
+			}
+			return "<tag k=\"name\" v=\"b\"/>"
+		}
+		if o.id%3 == 1 {
+			return "<tag k=\"k\" v=\"zz\"/><tag k=\"other\" v=\"y\"/>"
 		}
 		return "<tag k=\"other\" v=\"x\"/>"
 	}
@@ -112,7 +127,7 @@ func (d *osmDoc) xml() []byte {
 func keepFn(name string) gosm.KeepFunc {
 	switch name {
 	case "tags":
-		return gosm.KeepTags(map[string][]string{"k": {"v"}})
+		return gosm.KeepTags(map[string][]string{"k": {"v", "v2"}, "name": {}})
 	case "bounds":
 		return gosm.KeepBounds(&geom.Bounds{Min: geom.Point{X: 0, Y: 0}, Max: geom.Point{X: 1, Y: 1}})
 	}
@@ -425,14 +440,17 @@ func runFree(doc *osmDoc, keep string, procs []int, runs int) []Event {
 		for i := 0; i < runs; i++ {
 			var data *gosm.Data
 			var err error
+			// every other repetition asks for the objects without their tags: which objects are extracted is the same
+			keepTags := i%2 == 0
 			out := safely(func() {
-				data, err = gosm.ExtractXML(context.Background(), bytes.NewReader(xml), keepFn(keep), true)
+				data, err = gosm.ExtractXML(context.Background(), bytes.NewReader(xml), keepFn(keep), keepTags)
 			})
 			if out != "ok" {
 				err = fmt.Errorf("%s", out)
 			}
 			es := resultEvents(data, err, keep, "free", false, 0, first)
 			es[0]["procs"] = p
+			es[0]["keeptags"] = keepTags
 			evs = append(evs, es...)
 			first = false
 		}
